@@ -1,5 +1,6 @@
 import Tulz.Model.Pool
 import Tulz.Drv.Util
+import Tulz.Drv.PoolX
 /-
   Lock-step replay of an observed execution of tulz::ThreadPool on the model (DESIGN.md 5.3 / 6.5).
   The harness + canonicaliser report one line per completed critical section of the owner (`ocs q …` for
@@ -12,8 +13,7 @@ import Tulz.Drv.Util
 namespace Tulz.Drv.Pool
 open _root_.TPool
 
-abbrev State := Option TPool.State
-def init : State := none
+abbrev BState := Option TPool.State
 
 def parseOp (s : String) : Option OwnerOp :=
   match s.toList with
@@ -60,10 +60,10 @@ def enabled (x : TPool.State) : List String :=
   (ws.filter fun w => (xstep? x (.owner (some w))).isSome).map (fun w => s!"owner-notify-{w}") ++
   (ws.filter fun w => (xstep? x (.worker w)).isSome).map (fun w => s!"worker-{w}")
 
-def mism (st : State) (x : TPool.State) (msg : String) : State × String := (st, s!"MISMATCH {msg} | {status x}")
+def mism (st : BState) (x : TPool.State) (msg : String) : BState × String := (st, s!"MISMATCH {msg} | {status x}")
 
-def ownerMove (st : State) (x : TPool.State) (what : String) (woken : Option Nat) (ok : TPool.State → Option String) :
-    State × String :=
+def ownerMove (st : BState) (x : TPool.State) (what : String) (woken : Option Nat) (ok : TPool.State → Option String) :
+    BState × String :=
   match xstep? x (.owner woken) with
   | none => mism st x s!"{what}: no owner step"
   | some y =>
@@ -71,7 +71,7 @@ def ownerMove (st : State) (x : TPool.State) (what : String) (woken : Option Nat
     | none => (some y, "ok")
     | some m => (some y, s!"MISMATCH {what}: {m} | {status y}")
 
-def step (st : State) (args : List String) : State × String :=
+def stepBase (st : BState) (args : List String) : BState × String :=
   match args with
   | ["init", mx, prog] =>
     match mx.toNat?, (prog.splitOn ",").mapM parseOp with
@@ -185,5 +185,18 @@ def step (st : State) (args : List String) : State × String :=
       if (enabled x).isEmpty then (st, "ok model-stuck-too") else mism st x s!"stuck: the model can still move: {enabled x}"
     | ["status"] => (st, status x)
     | _ => (st, "bad-op")
+
+/-- the component state: the base protocol (`pool …`, model TPool: non-expiring workers) and the expiring-worker protocol
+    (`pool x …`, model TPoolX, Tulz/Drv/PoolX.lean) keep separate model states -/
+structure State where
+  base : BState := none
+  x : Tulz.Drv.PoolX.State := Tulz.Drv.PoolX.init
+
+def init : State := {}
+
+def step (st : State) (args : List String) : State × String :=
+  match args with
+  | "x" :: rest => let (s, o) := Tulz.Drv.PoolX.step st.x rest; ({ st with x := s }, o)
+  | _ => let (s, o) := stepBase st.base args; ({ st with base := s }, o)
 
 end Tulz.Drv.Pool
